@@ -318,7 +318,7 @@ func (sc *sortCtx) sortOf(t types.Type) string {
 
 func (sc *sortCtx) sliceSort(elem string) string {
 	n := "Slice_" + mangle(elem)
-	sc.d.add("s:"+n, fmt.Sprintf("(declare-datatypes ((%s 0)) (((mk_%s (sarr_%s (Array Int %s)) (soff_%s Int) (slen_%s Int) (snil_%s Bool)))))", n, n, n, elem, n, n, n))
+	sc.d.add("s:"+n, fmt.Sprintf("(declare-datatypes ((%s 0)) (((mk_%s (sarr_%s (Array Int %s)) (slen_%s Int) (snil_%s Bool)))))", n, n, n, elem, n, n))
 	return n
 }
 
